@@ -82,6 +82,7 @@ Theorem stored_code_usable e id : In id (ids (codes e)) -> 0 < id ->
   exists co, find_code id (codes e) = Some co /\
     (forall s creator admin label salt,
        register_contract e s id creator admin label salt =
+       if negb (salt_ok salt) then Err else
        match new_address e s id creator salt with
        | None => Panic
        | Some a => match lookup a (reg s) with
@@ -137,7 +138,7 @@ Theorem fresh_address e s code_id creator admin label salt a s1 :
   (forall x, x <> a -> lookup x (reg s1) = lookup x (reg s)) /\
   length (reg s1) = S (length (reg s)) /\
   new_address e s code_id creator salt = Some a /\ In code_id (ids (codes e)) /\
-  bank s1 = bank s /\ cstore s1 = cstore s.
+  bank s1 = bank s /\ cstore s1 = cstore s /\ salt_ok salt = true.
 Proof. exact (register_records e s code_id creator admin label salt a s1). Qed.
 Print Assumptions fresh_address.
 
@@ -160,6 +161,22 @@ Theorem salted_repeat_rejected e sender code_id p funds label admin salt s r s' 
     run_msg e' sender (MInst code_id' p' funds' label' admin' (Some salt)) s'' = ([], Err).
 Proof. exact (Registry.salted_repeat_rejected e sender code_id p funds label admin salt s r s'). Qed.
 Print Assumptions salted_repeat_rejected.
+
+(* an Instantiate2 with an EMPTY salt or a salt longer than 64 bytes is refused (it never falls back to the classic,
+   history-dependent address): registration fails for every creator, the message fails with an empty log (no funds
+   moved, no code run), and as a top-level call it leaves the chain state as it was *)
+Theorem salt_length_enforced e sender code_id p funds label admin salt s :
+  salt_ok (Some salt) = false ->
+  (forall creator, register_contract e s code_id creator admin label (Some salt) = Err) /\
+  run_msg e sender (MInst code_id p funds label admin (Some salt)) s = ([], Err).
+Proof. exact (bad_salt_rejected e sender code_id p funds label admin salt s). Qed.
+Print Assumptions salt_length_enforced.
+
+Theorem salt_length_enforced_top e sender code_id p funds label admin salt s :
+  salt_ok (Some salt) = false ->
+  run_top e (TExec sender (MInst code_id p funds label admin (Some salt))) s = ([], Err, s).
+Proof. exact (bad_salt_rejected_top e sender code_id p funds label admin salt s). Qed.
+Print Assumptions salt_length_enforced_top.
 
 Theorem classic_counts_committed_only e d id payload ro m on_ok on_err s :
   outc (run_msg e d m s) = Err ->
@@ -241,3 +258,11 @@ Example failed_submsg_exists :
 Proof. vm_compute. reflexivity. Qed.
 Example no_helper_history_exists : Forall no_helper_inst ex_hist /\ ex_hist <> [].
 Proof. split; [repeat constructor|discriminate]. Qed.
+Example bad_salts_exist : salt_ok (Some []) = false /\ salt_ok (Some (rep 7 65)) = false /\
+  salt_ok (Some [1]) = true /\ salt_ok (Some (rep 7 64)) = true /\ salt_ok None = true.
+Proof. vm_compute. repeat split; reflexivity. Qed.
+Example empty_salt_refused :
+  let e := henv ex_re [(10, mk_code (fun _ _ => [7]) 10 [97] ex_src)] ex_b in
+  run_top e (TExec [97] (MInst 10 (okp 1) [] [76] None (Some []))) empty_chain = ([], Err, empty_chain) /\
+  is_ok (top_outcome (run_top e (TExec [97] (MInst 10 (okp 1) [] [76] None None)) empty_chain)) = true.
+Proof. vm_compute. split; reflexivity. Qed.
